@@ -2,6 +2,10 @@
 """Regenerates MANIFEST.json from the table below (kept in one place so that it stays valid)."""
 import json, sys
 CHECKS = {
+ "C14": dict(
+   text="The amd64 assembly bodies of GF(2^255-19) arithmetic (add, sub, mul, sqr, modp, cmov, cswap; both the legacy MULQ/ADCQ and the MULX/ADCX/ADOX variants selected by the CPU-feature byte) are executed symbolically from the assembler's own macro-expanded listing (go tool asm -S, regenerated from /repo on every run) and decided to meet the same contract as the portable Go bodies for every operand: congruent results mod p, modp bit-identical to the Go body, cmov/cswap bit-identical; counterexamples are replayed natively with the feature byte forced.",
+   note="Deliberately narrow: integer amd64 kernels of fp25519 so far (fp448/x25519/x448/fourq/p384/sidh assembly, all AVX2/NEON code and arm64 are not covered); bit-identity of whole-primitive outputs across builds follows only for operations that canonicalise (ToBytes/Modp/IsZero).",
+   ref="§4 C14"),
  "C18": dict(
    text="EMSA-PSS of the real blind-RSA code decided against RFC 8017 §9.1.1/§9.1.2 (the algorithm crypto/rsa.VerifyPSS implements): emsaPSSVerify accepts exactly the encoded messages the RFC calls consistent, for EVERY EM byte string (emBits mod 8 in {7,0,1}, salted and salt-length-equals-hash variants), emsaPSSEncode produces maskedDB||H||0xbc byte for byte and its output verifies; real mgf1XOR counter logic.",
    note="Hash function is an uninterpreted function of its input bytes; small moduli (emLen 67..68) so that every EM byte is symbolic; RSA exponentiation, blinding and the partially-blind key derivation not yet covered.",
